@@ -276,6 +276,37 @@ pub fn run_c06(ctx: &mut Ctx) {
         ctx.count(&format!("trail_{}", if k == 0 { "0" } else if k < 8 { "1-7" } else if k < 64 { "8-63" } else { "64" }));
         let sc = StreamCase { z, zlib: base.zlib, tag: format!("trailing:{}", base.tag), expect_len: base.expect_len, prefix_of_valid: false, trail: k };
         run_stream(ctx, &sc, 3, base.z.len() <= 120 && i % 5 == 0);
+        if i % 4 == 0 && base.tag.starts_with("valid") { trailer_cuts(ctx, &base, &tail); }
+    }
+}
+
+/// zlib streams under the flag variants (verify / ignore / compute the checksum) with a single cut at
+/// every position of the last bytes (header of the trailer, inside it, after it): the stream must end
+/// exactly at its last byte whatever the flags, and every call is replayed through the model
+fn trailer_cuts(ctx: &mut Ctx, base: &StreamCase, trail: &[u8]) {
+    use miniz_oxide::inflate::core::inflate_flags::*;
+    if !base.zlib { return; }
+    let id = ctx.id();
+    let mut z = base.z.clone(); z.extend_from_slice(trail);
+    let n = base.z.len();
+    ctx.eval(crate::tx::fnv(&z) ^ 0x7a11);
+    let replay = format!("STREAM fmt=1 pov=0 trail={} seed={} data={}", trail.len(), ctx.seed, crate::tx::hex(&z));
+    for extra in [0u32, TINFL_FLAG_IGNORE_ADLER32, TINFL_FLAG_COMPUTE_ADLER32] {
+        for back in 0..=7usize {
+            if back > n { continue; }
+            let cut = n - back;
+            for mode in [Mode::Flat { cap: base.expect_len + 8, pos0: 0 }, Mode::Ring { size: 1 << 15 }] {
+                if let Mode::Ring { size } = mode { if base.expect_len > size { continue; } }
+                let s = Sched { in_style: 3, cut, out_style: 0, more_on_last: false };
+                let mut r = miniz_oxide::inflate::core::DecompressorOxide::new();
+                let mut rng = ctx.rng.fork();
+                let res = run_low(&mut r, &z, base_flags(true) | extra, &mode, &s, &mut rng, 0xA5);
+                ctx.count("trailer_cut_runs");
+                for (cl, m) in &res.problems { ctx.violation(id, cl, format!("[flags +{} cut {} of {}] {}", extra, cut, n, m), replay.clone()); }
+                if res.st != 0 { ctx.violation(id, "status", format!("valid zlib stream, extra flags {}, cut at {} of {}: status {}", extra, cut, n, res.st), replay.clone()); }
+                else if res.consumed != n { ctx.violation(id, "consumed", format!("valid zlib stream of {} bytes, extra flags {}, cut at {}: {} bytes reported consumed", n, extra, cut, res.consumed), replay.clone()); }
+            }
+        }
     }
 }
 
